@@ -112,11 +112,11 @@ class Celestial(Dynamics, metaclass=ABCMeta):
             #  Add the event queue to the list of events to be handled by the integration solver.
             events.extend(scheduled_events)
             for event in scheduled_events:
+                if not isinstance(event, ScheduledFiniteThrust):
+                    continue
+                event.reset()
                 # Grab finite thrust events that should already be active
-                if (
-                    isinstance(event, ScheduledFiniteThrust)
-                    and event.start_time < initial_time < event.end_time
-                ):
+                if event.start_time < initial_time < event.end_time:
                     self.finite_thrust = event.getStateChangeCallback(initial_time)
 
         return events
